@@ -290,7 +290,12 @@ func genReq(rt *rapid.T, l string, faulty bool) Req {
 	}
 	r.Result = genResult(rt, l+".res", faulty)
 	if faulty {
-		if rapid.IntRange(0, 5).Draw(rt, l+".cancel") == 0 {
+		// a client that gives up is most interesting while the database is stalling or slow
+		cancelOdds := 5
+		if r.Result.StallAtRow > 0 || r.Result.QueryDelayUs >= 2000000 {
+			cancelOdds = 1
+		}
+		if rapid.IntRange(0, cancelOdds).Draw(rt, l+".cancel") == 0 {
 			r.CancelUs = rapid.SampledFrom([]int64{1, 50, 3000, 500000}).Draw(rt, l+".cancelus")
 		}
 		if rapid.IntRange(0, 6).Draw(rt, l+".slow") == 0 {
